@@ -11,7 +11,7 @@ from ..core import EventLog, Result, SimFault, SimBudget, HarnessError, choice, 
 from ..families import (sample_config, make_data, make_affinity, build_model, FAMILIES, SPARSE_FAMILIES, config_signature)
 from ..refs import prox_group_lasso, hier_prox
 from ..seams import World, ModelHarness
-from .common import sample_sched, exc_site, is_harness_frame, quiet
+from .common import sample_sched, exc_site, is_harness_frame, quiet, sample_prefix, second_dataset, run_generic_op
 
 PROPERTY = "C06"
 RULE = ("one run = fit (+ optional short path, with or without restoration) of one of the 5 sparse families x GEMINI x alpha x M x "
@@ -31,9 +31,10 @@ ASSUMPTIONS = ["prox comparison tolerance 1e-9*max(1,|W|); rows outside the prop
 def generate(rng):
     cfg = sample_config(rng, families=SPARSE_FAMILIES, n_range=(3, 12), d_range=(2, 6), k_range=(2, 4), max_iter_range=(1, 4),
                         alpha_choices=(0.0, 0.05, 0.5, 5.0, 50.0), allow_callable=False, p_big=0.12)
-    ops = [{"op": "fit"}]
+    cfg["n2"] = cfg["n"] if rng.random() < 0.5 else rng.randint(max(3, cfg["params"]["n_clusters"]), 12)
+    ops = sample_prefix(rng, cfg, p_any=0.35) + [{"op": "fit", "data": 0}]
     if rng.random() < 0.45:
-        ops.append({"op": "path", "args": {"alpha_multiplier": choice(rng, [2.0, 5.0]), "min_features": rng.randint(1, cfg["d"]),
+        ops.append({"op": "path", "data": 0, "args": {"alpha_multiplier": choice(rng, [2.0, 5.0]), "min_features": rng.randint(1, cfg["d"]),
                                           "max_patience": rng.randint(1, 2), "restore_best_weights": rng.random() < 0.6,
                                           "keep_threshold": choice(rng, [0.9, 0.5, 0.0])}})
         if cfg["params"]["alpha"] == 0.0:
@@ -262,28 +263,24 @@ def execute(record):
         world.val_hooks.append(lambda w, clf, Xv, yv, b, out: oracle.checkpoint("val_score"))
         world.val_budget = 1200
         world.step_budget = 20000
+        import copy as _copy
+        cur_cfg = _copy.deepcopy(cfg)
+        oracle.cfg = cur_cfg                 # the user's current hyper-parameters (groups may change along the history)
+        pool = [(X, A), second_dataset(cfg)]
         with world, quiet():
             for op in record["ops"]:
-                world.begin_op()
-                log.emit("OP", op=op["op"], phase="begin")
-                try:
-                    if op["op"] == "fit":
-                        model.fit(X, A)
-                        oracle.checkpoint("after_fit")
-                    else:
-                        model.path(X, A, **op.get("args", {}))
-                        oracle.checkpoint("after_path_restore" if op.get("args", {}).get("restore_best_weights") else "after_path")
-                        res.probe("paths_run")
-                    log.emit("OP", op=op["op"], phase="end")
-                except (SimFault, SimBudget):
-                    raise
-                except Exception as e:
-                    if is_harness_frame(e):
-                        raise
-                    log.emit("OP", op=op["op"], phase="raised", exc=type(e).__name__)
-                    res.probe("op_raised:" + type(e).__name__ + "@" + exc_site(e))
-                    break
-        if log.counts.get("PROX", 0) == 0 and not any(k.startswith("op_raised") for k in res.probes):
+                kind = op["op"]
+                oracle.X = pool[op.get("data", 0)][0]
+                oracle.pre = None
+                outcome = run_generic_op(op, model, world, pool, cur_cfg, res, log)
+                if outcome != "ok":
+                    continue
+                if kind == "fit":
+                    oracle.checkpoint("after_fit")
+                elif kind in ("path", "nan_path"):
+                    oracle.checkpoint("after_path_restore" if op.get("args", {}).get("restore_best_weights") else "after_path")
+                    res.probe("paths_run")
+        if log.counts.get("PROX", 0) == 0 and not any(k.startswith("prefix_fit_raised") for k in res.probes):
             raise HarnessError("_update_weights seam never fired")
     except SimBudget:
         res.probe("budget_exhausted")
